@@ -71,6 +71,28 @@ where
     out
 }
 
+/// like `run_guarded_par`, but an item that produced no result (hang under load, panic) is run once more on its own
+/// with five times the limit before it is given up (harnesses whose workers start real processes use this: on a loaded
+/// machine a worker can miss its limit without anything being wrong)
+pub fn run_guarded_par_retry<T, R, F>(items: Vec<T>, limit: Duration, threads: usize, f: F) -> Vec<Guarded<R>>
+where
+    T: Send + Sync + Clone + 'static,
+    R: Send + 'static,
+    F: Fn(&T) -> R + Send + Sync + Clone + 'static,
+{
+    let copy = items.clone();
+    let mut out = run_guarded_par(items, limit, threads, f.clone());
+    for i in 0..out.len() {
+        if !matches!(out[i], Guarded::Ok(_)) {
+            let why = match &out[i] { Guarded::Panic(m) => format!("panic: {m}"), Guarded::Hang => "no result within the limit".to_string(), _ => String::new() };
+            eprintln!("harness worker: item {i} failed ({why}); running it once more on its own");
+            let mut again = run_guarded(vec![copy[i].clone()], limit * 5, f.clone());
+            out[i] = again.remove(0);
+        }
+    }
+    out
+}
+
 pub fn threads() -> usize {
     std::env::var("VERIF_THREADS")
         .ok()
